@@ -19,7 +19,8 @@ Lemma last_obs n o : In (n, o) os ->
   cur (st s n) = o_cur o /\ log (st s n) = o_log o /\
   (o_commit o <= commit (st s n))%nat /\
   (o_role o = Leader -> role (st s n) = Leader) /\
-  (o_role o = Candidate -> role (st s n) = Candidate).
+  (o_role o = Candidate -> role (st s n) = Candidate) /\
+  flushed (st s n) = o_flushed o.
 Proof.
   intro Hin. apply obs_okb_ok. exact (run_hist_last_obs V0 h acts os s Hrun _ Hin).
 Qed.
@@ -61,6 +62,15 @@ Proof.
   destruct (last_obs m o' H2) as [_ [L2 _]].
   rewrite <- L1, <- L2.
   apply (log_matching V0 V0_nodup s n m i last_reachable).
+Qed.
+
+(* what a node reports as committed is within what it reports as durable *)
+Theorem observed_cfg_commit_durable n o :
+  In (n, o) os -> (o_commit o <= o_flushed o <= length (o_log o))%nat.
+Proof.
+  intro H. destruct (last_obs n o H) as [_ [L1 [C1 [_ [_ F1]]]]].
+  pose proof (commit_le_flushed V0 V0_nodup s n last_reachable) as Hc.
+  rewrite <- F1, <- L1. lia.
 Qed.
 
 End Thms.
